@@ -6,6 +6,7 @@ import (
 	"encoding/json"
 	"fmt"
 	"github.com/bolkedebruin/rdpgw/cmd/rdpgw/security"
+	"hash/fnv"
 	"os"
 	"path/filepath"
 	"strings"
@@ -416,8 +417,13 @@ func c13Cookies(env *Env, rep *Report, n *int) int {
 				// another base64 spelling of the very same cookie bytes: the same cookie
 				return
 			}
+			// every process logs in for itself and gets a cookie of its own (its length varies by a few
+			// characters): the share of a process is decided by the case's name, not by a running count, so that
+			// every case belongs to exactly one process
 			*n++
-			if !env.mine(*n) {
+			hh := fnv.New32a()
+			hh.Write([]byte(store + "/" + what))
+			if !env.mine(int(hh.Sum32() % 1000003)) {
 				return
 			}
 			distinct++
